@@ -169,17 +169,19 @@ func policyMenu() map[string]*networkv1.NetworkPolicy {
 
 // pod menu
 var pwPodMenu = map[string]pwPod{
-	"web":         {NS: "ns1", Name: "web", Labels: map[string]string{"app": "web"}, IP: "10.0.0.2", OnNode: true},
-	"db":          {NS: "ns1", Name: "db", Labels: map[string]string{"app": "db", "role": "client"}, IP: "10.0.0.3", OnNode: true},
-	"cli2":        {NS: "ns2", Name: "cli2", Labels: map[string]string{"app": "web", "role": "client"}, IP: "10.0.1.2", OnNode: true},
-	"cli2-off":    {NS: "ns2", Name: "cli2", Labels: map[string]string{"app": "web", "role": "client"}, IP: "10.0.1.2", OnNode: false},
-	"web-new":     {NS: "ns1", Name: "web", Labels: map[string]string{"app": "web"}, IP: "10.0.0.9", OnNode: true},         // web re-created with another IP
-	"db-plain":    {NS: "ns1", Name: "db", Labels: map[string]string{"app": "db"}, IP: "10.0.0.3", OnNode: true},           // db lost its role=client label
-	"db-noip":     {NS: "ns1", Name: "db", Labels: map[string]string{"app": "db", "role": "client"}, IP: "", OnNode: true}, // db re-created under its name, not yet networked
-	"bare":        {NS: "ns1", Name: "bare", Labels: nil, IP: "10.0.0.8", OnNode: true},                                    // a pod without any label (selected by empty selectors)
-	"cli-pending": {NS: "ns1", Name: "cli", Labels: map[string]string{"role": "client"}, IP: "", OnNode: true},             // created, not yet networked
-	"cli-ready":   {NS: "ns1", Name: "cli", Labels: map[string]string{"role": "client"}, IP: "10.0.0.7", OnNode: true},     // the same pod once it has its IP
-	"noip":        {NS: "ns1", Name: "pending", Labels: map[string]string{"app": "web"}, IP: "", OnNode: true},             // not yet networked
+	"web":          {NS: "ns1", Name: "web", Labels: map[string]string{"app": "web"}, IP: "10.0.0.2", OnNode: true},
+	"db":           {NS: "ns1", Name: "db", Labels: map[string]string{"app": "db", "role": "client"}, IP: "10.0.0.3", OnNode: true},
+	"cli2":         {NS: "ns2", Name: "cli2", Labels: map[string]string{"app": "web", "role": "client"}, IP: "10.0.1.2", OnNode: true},
+	"cli2-off":     {NS: "ns2", Name: "cli2", Labels: map[string]string{"app": "web", "role": "client"}, IP: "10.0.1.2", OnNode: false},
+	"web-new":      {NS: "ns1", Name: "web", Labels: map[string]string{"app": "web"}, IP: "10.0.0.9", OnNode: true},                      // web re-created with another IP
+	"db-plain":     {NS: "ns1", Name: "db", Labels: map[string]string{"app": "db"}, IP: "10.0.0.3", OnNode: true},                        // db lost its role=client label
+	"db-noip":      {NS: "ns1", Name: "db", Labels: map[string]string{"app": "db", "role": "client"}, IP: "", OnNode: true},              // db re-created under its name, not yet networked
+	"cli2-pending": {NS: "ns2", Name: "cli2", Labels: map[string]string{"app": "web", "role": "client"}, IP: "", OnNode: true},           // cli2 before it is networked
+	"ghost2":       {NS: "ns2", Name: "ghost", Labels: map[string]string{"app": "web", "role": "client"}, IP: "10.0.1.9", OnNode: false}, // a pod of ns2 on another node that goes away
+	"bare":         {NS: "ns1", Name: "bare", Labels: nil, IP: "10.0.0.8", OnNode: true},                                                 // a pod without any label (selected by empty selectors)
+	"cli-pending":  {NS: "ns1", Name: "cli", Labels: map[string]string{"role": "client"}, IP: "", OnNode: true},                          // created, not yet networked
+	"cli-ready":    {NS: "ns1", Name: "cli", Labels: map[string]string{"role": "client"}, IP: "10.0.0.7", OnNode: true},                  // the same pod once it has its IP
+	"noip":         {NS: "ns1", Name: "pending", Labels: map[string]string{"app": "web"}, IP: "", OnNode: true},                          // not yet networked
 }
 
 func mkCluster(pods []string, pols []string) pwCluster {
